@@ -199,9 +199,21 @@ def run(ck, tier):
     ck.guard(r5_r6_connection, ck, cx, cls)
     # which manager the protocol uses
     init = cx.method(cls, '__init__')
-    txt = [U(n.value.func) for n in ast.walk(init.node) if isinstance(n, ast.Assign) and U(n.targets[0]) == 'self.transaction' and isinstance(n.value, ast.Call)]
-    ck.ob('R7', init.qn, 'socket framer -> dictionary manager, other framers -> FIFO manager', sorted(txt) == ['DictTransactionManager', 'FifoTransactionManager'],
-          detail='manager-selection %s' % txt, loc=cx.floc(init))
+    sel = {}
+    for p in cx.enum(init, cls, max_depth=0):
+        st = annotate(p, heap=True)
+        socket = None
+        for e in p.ev:
+            if e.kind == 'cond' and isinstance(e._sub, ast.Call) and callee_name(e._sub) == 'isinstance' and len(e._sub.args) == 2 \
+                    and U(e._sub.args[1]) == 'ModbusSocketFramer':
+                socket = e.a
+        v = st.heap.get('self.transaction')
+        if socket is not None and isinstance(v, ast.Call):
+            sel.setdefault(socket, set()).add(U(v.func))
+    txt = {k: sorted(v) for k, v in sel.items()}
+    ck.ob('R7', init.qn, 'socket framer -> dictionary manager, other framers -> FIFO manager',
+          txt == {True: ['DictTransactionManager'], False: ['FifoTransactionManager']},
+          detail='manager-selection %s' % sorted(txt.items()), loc=cx.floc(init))
     ck.floor('R1', n, 1, 'execute paths')
     ck.assume('Deferred semantics (fires once) are Twisted\'s; behaviour with more than 65535 outstanding requests is not decided')
     return cx.idx
